@@ -445,6 +445,7 @@ impl<E: Elem> World<E> {
     fn op_default_boxed(&mut self, cx: &mut Cx, a: [u32; N_ARGS]) {
         let li = lens_idx(a[0]);
         let n = LENS[li];
+        ledger::with(|s| s.clones.clear());
         let r = with_len!(li; N => lib(|| Bx::from(GenericArray::<E, N>::default_boxed())));
         let calls = ledger::seam_count(Seam::Default) as usize;
         cx.cov(&[OpKind::DefaultBoxed as u64, n as u64, r.is_err() as u64, if r.is_err() { calls as u64 } else { 0 }]);
@@ -452,6 +453,13 @@ impl<E: Elem> World<E> {
             Ok(bx) => {
                 if cx.checks.c08 && calls != n {
                     fail("C08-default-calls", format!("default_boxed for length {n} called the element's default {calls} times"));
+                }
+                if cx.checks.c08 && E::HAS_ID {
+                    let made: Vec<u32> = ledger::with(|s| s.clones.iter().filter(|c| c.0 == u32::MAX).map(|c| c.1).collect());
+                    let got = with_bx!(&bx; x, N => { let _ = N::USIZE; ids_of(x.as_slice(), 930) });
+                    if got != made {
+                        fail("C08-default-order", format!("default_boxed for length {n}: calls produced {made:?} in that order, the array holds {got:?}"));
+                    }
                 }
                 self.put_bx(cx, bx);
             }
